@@ -55,6 +55,8 @@ type Contract struct {
 	Extent   string // opaque-at function giving the number of bytes the value depends on (frame axiom)
 	Axioms   []*Clause
 	Falsify  []*Clause
+	Function bool
+	Havoc    bool
 }
 
 // parseContracts reads //@ blocks from the zz_verif_contracts*.go files of a package.
@@ -196,6 +198,15 @@ func (p *Program) contractLine(pk *packages.Package, cur **Contract, line, pos s
 		}
 		cl.By = by
 		c.Axioms = append(c.Axioms, cl)
+	case "havoc":
+		// the call is modelled as arbitrary: every heap component and the result are havocked
+		// (sound for any callee; used to keep unrelated code out of a proof)
+		c.Havoc = true
+	case "function":
+		// the result is a deterministic function of the argument values alone (references
+		// included), independent of the heap; no side effects. A stated assumption.
+		c.Function = true
+		c.Pure = true
 	case "pure":
 		c.Pure = true
 	case "opaque":
@@ -646,14 +657,16 @@ func (e *evalEnv) mapGet(m, k Value, mt *types.Map) Value {
 	x, c := e.x, e.x.C
 	st := scratch(e.st)
 	pn, ps := x.mapPresent(st, mt)
-	k, _ = e.coerce(k, Value{T: mt.Key(), L: []*Term{x.zeroLeaf(LayoutOf(mt.Key()).Leaves[0].Sort)}})
-	present := c.And(c.Distinct(m.L[0], c.IntLit(0)), c.Select(c.Select(x.comp(st, pn, ps), m.L[0]), k.L[0]))
+	if len(k.L) == 1 {
+		k, _ = e.coerce(k, Value{T: mt.Key(), L: []*Term{x.zeroLeaf(LayoutOf(mt.Key()).Leaves[0].Sort)}})
+	}
+	present := c.And(c.Distinct(m.L[0], c.IntLit(0)), c.Select(c.Select(x.comp(st, pn, ps), m.L[0]), x.mapKey(mt, k)))
 	lay := LayoutOf(mt.Elem())
 	ks := x.mapKeySort(mt)
 	val := Value{T: mt.Elem(), L: make([]*Term, len(lay.Leaves))}
 	for i, lf := range lay.Leaves {
 		s := ArraySort(ks, lf.Sort)
-		val.L[i] = c.Ite(present, c.Select(c.Select(x.comp(st, x.mapValComp(mt, i), s), m.L[0]), k.L[0]), x.zeroLeaf(lf.Sort))
+		val.L[i] = c.Ite(present, c.Select(c.Select(x.comp(st, x.mapValComp(mt, i), s), m.L[0]), x.mapKey(mt, k)), x.zeroLeaf(lf.Sort))
 	}
 	e.syncComps(st)
 	return val
@@ -711,6 +724,25 @@ func (e *evalEnv) evalCall(n *ast.CallExpr) Value {
 				return boolV(e.quant(id.Name, n))
 			case "unchanged":
 				return boolV(e.unchanged(n))
+			case "samemap":
+				// samemap(m): the map m denotes has the same entries as in the pre-state
+				if e.old == nil {
+					e.fail(n, "samemap() has no pre-state here")
+				}
+				mNew := e.eval(n.Args[0])
+				mOld := e.withState(e.old).eval(n.Args[0])
+				mt, ok := mNew.T.Underlying().(*types.Map)
+				if !ok {
+					e.fail(n, "samemap: need a map")
+				}
+				pn, ps := x.mapPresent(e.st, mt)
+				fs := []*Term{c.Eq(mNew.L[0], mOld.L[0]), c.Eq(c.Select(x.comp(e.st, pn, ps), mNew.L[0]), c.Select(x.comp(e.old, pn, ps), mOld.L[0]))}
+				ks := x.mapKeySort(mt)
+				for i, lf := range LayoutOf(mt.Elem()).Leaves {
+					srt := ArraySort(ks, lf.Sort)
+					fs = append(fs, c.Eq(c.Select(x.comp(e.st, x.mapValComp(mt, i), srt), mNew.L[0]), c.Select(x.comp(e.old, x.mapValComp(mt, i), srt), mOld.L[0])))
+				}
+				return boolV(c.And(fs...))
 			case "fresh":
 				// fresh(x): the reference / slice base of x was allocated after the pre-state
 				v := e.eval(n.Args[0])
